@@ -23,7 +23,7 @@ def bounded(pb, interp, rng, tier):
     ev, fails, samples, distinct = 0, [], [], set()
 
     def fail(fn, what, inst, detail):
-        if len(fails) < 30:
+        if sum(1 for f_ in fails if f_["what"] == what) < 8:      # cap per kind: a known finding must not crowd out a new failure
             fails.append({"function": f"pulsarbat.readers.{fn}", "what": what, "instance": inst, "inputs": {"case": inst}, "observed": str(detail)[:200], "status": "mismatch"})
 
     cases = []
@@ -128,7 +128,7 @@ def bounded(pb, interp, rng, tier):
         # statelessness: interleaved and repeated reads, threads, dask
         m = max(1, min(40, length // 4))
         seq = [(3, m), (length - m - 1, m), (3, m), (0, min(7, m)), (length // 2, min(33, m)), (3, m)]
-        ref = {rq: np.asarray(r.read(*rq).data) for rq in set(seq)}
+        ref = {rq: np.array(r.read(*rq).data, copy=True) for rq in set(seq)}      # own copies: a reader that hands out shared buffers must not drag the reference along
         for rq in seq + seq[::-1]:
             ev += 1
             if not np.array_equal(np.asarray(r.read(*rq).data), ref[rq]):
